@@ -281,32 +281,32 @@ func isPeekFunc(f *ssa.Function) bool {
 
 // r02aExempt: (origin function | T.Field) -> reason. A field listed here needs no read at that origin.
 var r02aExempt = map[string]string{
-	"*|File.Name":          "the package clause is not translated (the package name comes from go/packages)",
-	"*|File.Imports":       "duplicates the import declarations, which are translated as declarations",
-	"*|File.Comments":      "comments other than doc comments carry no meaning",
-	"*|File.Unresolved":    "parser bookkeeping",
-	"*|File.GoVersion":     "build metadata",
-	"*|Field.Tag":          "struct tags are only visible through reflection, which is outside the subset",
-	"coqType|FuncType.TypeParams":  "only function declarations can declare type parameters; a func type expression cannot",
-	"funcLit|FuncType.TypeParams":  "function literals cannot declare type parameters",
-	"funcLit|FuncType.Results":     "lambdas are untyped in GooseLang; results come from the body's return expressions",
-	"goStmt|CallExpr.Ellipsis":     "meaningless once the argument list is guarded empty (R03c)",
-	"spawnExpr|FuncLit.Type":       "the parameter list is forced empty by the argument guard of goStmt and results of a go statement's function are discarded",
-	"methodExpr|IndexExpr.Index":           "explicit type arguments are taken from types.Info.Instances of the instantiated identifier",
-	"methodExpr|IndexListExpr.Indices":     "explicit type arguments are taken from types.Info.Instances of the instantiated identifier",
-	"stmtInBlock|BranchStmt.Label":         "a label needs an *ast.LabeledStmt, and no case of the translator accepts one (verified below)",
-	"typeParamList|Field.Type":             "type-parameter constraints have no dynamic meaning",
-	"unaryExpr|CompositeLit.Type":          "&T{…}: the struct type is taken from types.Info of the same literal (getStructInfo(typeOf(e.X)))",
-	"varDeclStmt|ValueSpec.Type":           "the declared type is taken from types.Info of the declared identifier (typeOf(lhs))",
+	"*|File.Name":                      "the package clause is not translated (the package name comes from go/packages)",
+	"*|File.Imports":                   "duplicates the import declarations, which are translated as declarations",
+	"*|File.Comments":                  "comments other than doc comments carry no meaning",
+	"*|File.Unresolved":                "parser bookkeeping",
+	"*|File.GoVersion":                 "build metadata",
+	"*|Field.Tag":                      "struct tags are only visible through reflection, which is outside the subset",
+	"coqType|FuncType.TypeParams":      "only function declarations can declare type parameters; a func type expression cannot",
+	"funcLit|FuncType.TypeParams":      "function literals cannot declare type parameters",
+	"funcLit|FuncType.Results":         "lambdas are untyped in GooseLang; results come from the body's return expressions",
+	"goStmt|CallExpr.Ellipsis":         "meaningless once the argument list is guarded empty (R03c)",
+	"spawnExpr|FuncLit.Type":           "the parameter list is forced empty by the argument guard of goStmt and results of a go statement's function are discarded",
+	"methodExpr|IndexExpr.Index":       "explicit type arguments are taken from types.Info.Instances of the instantiated identifier",
+	"methodExpr|IndexListExpr.Indices": "explicit type arguments are taken from types.Info.Instances of the instantiated identifier",
+	"stmtInBlock|BranchStmt.Label":     "a label needs an *ast.LabeledStmt, and no case of the translator accepts one (verified below)",
+	"typeParamList|Field.Type":         "type-parameter constraints have no dynamic meaning",
+	"unaryExpr|CompositeLit.Type":      "&T{…}: the struct type is taken from types.Info of the same literal (getStructInfo(typeOf(e.X)))",
+	"varDeclStmt|ValueSpec.Type":       "the declared type is taken from types.Info of the declared identifier (typeOf(lhs))",
 }
 
 // exemptions that hold wherever the node reached types.Info
 var r02aTypeInfoFields = map[string]string{
-	"BasicLit.Value":     "the constant is taken from types.Info.Types[e].Value",
-	"BasicLit.Kind":      "",
-	"CompositeLit.Type":  "the literal's type is taken from types.Info",
-	"ValueSpec.Type":     "the declared type is taken from types.Info (typeOf of the declared identifier or value)",
-	"IndexExpr.Index":    "type arguments are taken from types.Info.Instances",
+	"BasicLit.Value":        "the constant is taken from types.Info.Types[e].Value",
+	"BasicLit.Kind":         "",
+	"CompositeLit.Type":     "the literal's type is taken from types.Info",
+	"ValueSpec.Type":        "the declared type is taken from types.Info (typeOf of the declared identifier or value)",
+	"IndexExpr.Index":       "type arguments are taken from types.Info.Instances",
 	"IndexListExpr.Indices": "type arguments are taken from types.Info.Instances",
 }
 
